@@ -223,6 +223,27 @@ def gen_units():
         n, d = dec_to_frac(mp[v])
         out.append(f"  | .{lname(v)} => ({n}, {d})  -- {mp[v]}")
     out.append("")
+    # From<(DistanceUnit, TimeUnit)> for SpeedUnit: `(D::X, T::Y) => S::Z,` or `=> todo!(),` (the call panics)
+    m = re.search(r"impl From<\(DistanceUnit, TimeUnit\)> for SpeedUnit \{(.*?)\n\}", strip_tests(su_src), re.S)
+    if not m:
+        raise TranslateError("From<(DistanceUnit, TimeUnit)> for SpeedUnit not recognised")
+    arms = {}
+    for mm in re.finditer(r"\(D::(\w+), T::(\w+)\) => (todo!\(\)|S::(\w+)),", m.group(1)):
+        arms[(mm.group(1), mm.group(2))] = mm.group(4)
+    out.append("/-- `SpeedUnit::from((distance_unit, time_unit))`; `none` is an arm that is `todo!()` (the call panics) -/")
+    out.append("def SpeedUnit.ofDistanceTime? : DistanceUnit → TimeUnit → Option SpeedUnit")
+    for dv in rust_names["DistanceUnit"]:
+        for tv in rust_names["TimeUnit"]:
+            if (dv, tv) not in arms:
+                raise TranslateError(f"From<(DistanceUnit, TimeUnit)> for SpeedUnit: no arm for {(dv, tv)}")
+            tgt = arms[(dv, tv)]
+            if tgt is None:
+                out.append(f"  | .{lname(dv)}, .{lname(tv)} => none")
+            else:
+                if tgt not in rust_names["SpeedUnit"]:
+                    raise TranslateError(f"From<(DistanceUnit, TimeUnit)> for SpeedUnit: unknown target {tgt}")
+                out.append(f"  | .{lname(dv)}, .{lname(tv)} => some .{lname(tgt)}")
+    out.append("")
     # base units
     b = strip_tests(read(os.path.join(U, "builders.rs")))
     for const, enum, lean in [("BASE_DISTANCE_UNIT", "DistanceUnit", "baseDistanceUnit"),
